@@ -61,7 +61,13 @@ def _variants(rng, base, tier):
 def generate(rng, tier):
     n = 45 if tier == "quick" else 700
     cases = []
-    corpus = [c01.CORPUS[0], c01.CORPUS[1], c01.CORPUS[2]]
+    D = sc.DAY
+    corpus = [c01.CORPUS[0], c01.CORPUS[1], c01.CORPUS[2],
+              # one output fanning out behind a shared pass-through adapter to consumers with different steps
+              {"comps": [{"kind": "T", "start": 0, "steps": [D], "initpull": False, "nout": 1, "inputs": [], "shared_out": [0]},
+                         {"kind": "T", "start": 0, "steps": [D], "initpull": True, "nout": 0, "inputs": [{"src": [0, 0], "chain": []}]},
+                         {"kind": "T", "start": 0, "steps": [2 * D], "initpull": False, "nout": 0, "inputs": [{"src": [0, 0], "chain": []}]}],
+               "end": 6 * D}]
     for i in range(n + len(corpus)):
         if i < len(corpus):
             base = corpus[i]
@@ -91,7 +97,7 @@ def run_impl(case):
 def coq_case(case, obs):
     variants = L(sc.coq_case(_variant_case(case, v), o) for v, o in zip(case["variants"], obs["variants"]))
     fuel = max([sc.fuel_for(None, o) for o in obs["variants"]] or [10])
-    base = P(L(sc.coq_comp(c) for c in case["base"]["comps"]), Z(case["base"]["end"]), N(fuel))
+    base = P(L(sc.coq_comp(c, case["base"]["comps"]) for c in case["base"]["comps"]), Z(case["base"]["end"]), N(fuel))
     prios = L(L(N(k) for k in v["order"]) for v in case["variants"])
     return P(base, prios, variants)
 
